@@ -583,6 +583,12 @@ def run(prop, tier, seed):
                 ops = [dict(id="m%d" % j, kind="multi", ents=[dict(k=0, root="A", dom=d1), dict(k=1, root="B", dom=d2), dict(k=2, root="C", dom=d1)])
                        for j, (d1, d2) in enumerate(pairs_[i:i + 40])]
                 mix_scs.append(dict(id="C05-mixed-%d" % (i // 40), world=dict(nkeys=3), conc=conc0, ops=ops))
+                # the entries of a batch are handled by util.Scatter workers, each taking a slice of the batch: with one worker (all three
+                # entries in one slice), with two, and in batches of eight over four keys with two workers (slices of four)
+                mix_scs.append(dict(id="C05-mixed-%d-p1" % (i // 40), world=dict(nkeys=3), conc=conc0, ops=ops, gomaxprocs=1))
+                ops8 = [dict(id="m%d" % j, kind="multi", ents=[dict(k=x_ % 4, root="ABCDEFGH"[x_], dom=(d1, d2)[(x_ + x_ // 4) % 2]) for x_ in range(8)])
+                        for j, (d1, d2) in enumerate(pairs_[i:i + 40])]
+                mix_scs.append(dict(id="C05-mixed-%d-p2" % (i // 40), world=dict(nkeys=4), conc=conc0, ops=ops8, gomaxprocs=2))
             mev, mrc, merr = run_driver(mix_scs, wd, tag="mixed", timeout=300)
             if mrc != 0:
                 raise Inconclusive("mixed generic batches: driver exited %s: %s" % (mrc, merr[-300:]))
